@@ -436,7 +436,7 @@ def rule_f(res: Results, idx: Index) -> None:
             n += 1
             key = f"{FS}::FunctionScope.begin::formal-from::{ev}"
             bad = None
-            logged = {id(y) for c in ast.walk(lp) if isinstance(c, ast.Call) and (call_name(c) or "").split(".")[0] in ("logger", "logging", "_logger", "LOGGER", "warnings") for y in ast.walk(c)}
+            logged = {id(y) for c in ast.walk(lp) if isinstance(c, ast.Call) and src(c.func, 200).split(".")[0].split("(")[0] in ("logger", "logging", "_logger", "LOGGER", "warnings") for y in ast.walk(c)}
             for x in ast.walk(lp):
                 if id(x) in logged:
                     continue
